@@ -151,7 +151,7 @@ class Gen:
 
 
 def gen(rng, tier, open_keys):
-    n = 1500 if tier == "quick" else 60000
+    n = 1500 if tier == "quick" else 12000
     out = []
     for i in range(n):
         nops = rng.choice([3, 8, 15, 25, 40]) if tier == "quick" else rng.choice([8, 25, 60, 150, 300])
